@@ -35,3 +35,40 @@ Definition mail_facts_of (parse_ip : str -> bool) (arg : str) : option mailfacts
       end
   | _ => None
   end.
+
+(** ** An independent reading of the SIZE declaration (C06)
+    The parser above is the code's own (regenerated patterns): if the patterns stop seeing a parameter, so does the
+    model.  The property, however, speaks of "the declared SIZE".  This is the declaration read without the patterns:
+    the text behind the first "> " cut at blanks; when exactly one token names SIZE (any letter case) and it is
+    SIZE=<digits>, that is what the command declares.  Wherever the command is accepted syntactically, the parser
+    must have seen exactly that. *)
+Fixpoint after_path (s : str) : option str :=
+  match s with
+  | 62 :: 32 :: r => Some r
+  | _ :: r => after_path r
+  | [] => None
+  end.
+Definition w_SIZE_eq : str := [83;73;90;69;61].
+Definition names_size (t : str) : bool := str_eqb (upper (firstn 5 t)) w_SIZE_eq.
+Definition is_size_token (t : str) : option str :=
+  let v := skipn 5 t in
+  match v with
+  | [] => None
+  | _ => if names_size t && forallb is_digit v then Some v else None
+  end.
+Definition declared_size_spec (arg : str) : option str :=
+  match after_path arg with
+  | None => None
+  | Some ps =>
+      match filter names_size (split_on 32 ps) with
+      | [t] => is_size_token t
+      | _ => None
+      end
+  end.
+Definition size_seen_ok (arg : str) (f : mailfacts) : bool :=
+  if mf_match f && mf_params_ok f then
+    match declared_size_spec arg with
+    | Some ds => match mf_size f with Some x => str_eqb x ds | None => false end
+    | None => true
+    end
+  else true.
